@@ -121,6 +121,8 @@ def build_net(spec):
                 pass
     decorate(nl, rng, spec.get("policy", "DEFAULT"), idents=True, brackets=bool(spec.get("brackets")),
              punct=bool(spec.get("punct")))
+    if spec.get("cross"):
+        cross_keys(nl, random.Random("cross-%d" % spec["seed"]))
     return nl
 
 
@@ -244,6 +246,33 @@ def first_class(nl):
     if nl.top_instance is not None:
         out.append(nl.top_instance)
     return out
+
+
+def cross_keys(nl, rng):
+    """Values shared ACROSS keys among siblings: an element's EDIF.identifier (plain data under the
+    DEFAULT policy) or user key equals the .NAME of another sibling, so that an answer taken from the
+    table of the wrong key is visible."""
+    groups = [list(nl.libraries)]
+    for lib in nl.libraries:
+        groups.append(list(lib.definitions))
+        for d in lib.definitions:
+            groups += [list(d.ports), list(d.cables), list(d.children)]
+    for g in groups:
+        named = [e for e in g if e.name]
+        if len(named) < 2:
+            continue
+        for key in ("EDIF.identifier", "uk"):
+            if rng.random() < 0.6:
+                a, b = rng.sample(named, 2)
+                try:
+                    a[key] = b.name
+                except ValueError:
+                    pass
+                if rng.random() < 0.4:
+                    try:
+                        b[key] = a.name        # swapped pair
+                    except ValueError:
+                        pass
 
 
 def decorate(nl, rng, policy, idents=True, brackets=False, punct=False):
@@ -1127,6 +1156,12 @@ def gen_patterns(case, rng):
     ea = EARLIER.get(id(case.w.nl), {}).get(case.x.get("key", ".NAME") if case.fn not in H_FNS else ".NAME", [])
     if ea and case.variant in ("pipeline", "found"):
         vals = vals + [rng.choice(ea)]
+    if case.x.get("key", ".NAME") != ".NAME" and case.variant in ("pipeline", "found"):
+        # names of the candidates as patterns for another key (an answer from the wrong table shows)
+        nm = sorted(set(o.name for o in (case.w.objs[i] for i in case.cands if 0 <= i < len(case.w.objs))
+                        if getattr(o, "name", None)))
+        if nm:
+            vals = vals + [rng.choice(nm), rng.choice(nm)]
     gh = GHOSTS.get(id(case.w.nl), [])
     if gh and case.x.get("key") in (".NAME", "EDIF.identifier") and case.variant == "pipeline":
         vals = vals + [rng.choice(gh), rng.choice(gh)]
@@ -1770,7 +1805,8 @@ def run(ctx):
                               "unnamed": 0.15 if rng.random() < 0.25 else 0.0,
                               "size": "large" if rng.random() < 0.2 else "small",
                               "twins": rng.random() < 0.35, "refused": rng.random() < 0.3,
-                              "brackets": rng.random() < 0.35, "punct": rng.random() < 0.35})
+                              "brackets": rng.random() < 0.35, "punct": rng.random() < 0.35,
+                              "cross": rng.random() < 0.4})
         args.append((ctx.seed, ctx.tier, si, nshards, budget, specs, per_net))
     shard.run_shards(ctx, shard_worker, args)
     ht, hf = ctx.hist.get("hyp:True", 0), ctx.hist.get("hyp:False", 0)
